@@ -202,6 +202,12 @@ Theorem model_meets_spec_composite :
 Proof. exact (fun ps ctx car => conj (model_meets_spec_comp_inject ps ctx car) (model_meets_spec_comp_extract ps ctx car)). Qed.
 Print Assumptions model_meets_spec_composite.
 
+(* PURITY lines (ThreadSanitizer probe of the model's purity assumption; a run-time check, not a theorem):
+   the model's prediction PURE passes the clause *)
+Theorem model_meets_spec_purity_probe : forall l, parse_case l = Some CPur -> run_spec l (run_model l) = [].
+Proof. exact model_meets_spec_purity. Qed.
+Print Assumptions model_meets_spec_purity_probe.
+
 (* -- the linear-time trim / member list used by this model are C14's trim_ws / members *)
 Theorem members_are_c14_members : forall h, bg_members h = members h /\ forall s, trim s = trim_ws s.
 Proof. exact (fun h => conj (bg_members_eq h) trim_eq). Qed.
